@@ -26,6 +26,7 @@ fn run_prop(id: &str, tier: Tier) -> Option<Report> {
         "C17" => props::c17::run(tier),
         "C16" => props::c16::run(tier),
         "C14" => props::c14::run(tier),
+        "C15" => props::c15::run(tier),
         _ => return None,
     })
 }
@@ -45,6 +46,7 @@ fn replay_case(case: &Value) -> Option<(bool, String)> {
         "c17" | "c17hsl" => props::c17::replay(case),
         "c16yuv" | "c16curve" | "c16prim" | "c16xyb" | "c16hsl" => props::c16::replay(case),
         "c14" | "c14labels" => props::c14::replay(case),
+        "c15res" | "c15rgb" | "c15content" | "c15contentrgb" => props::c15::replay(case),
         _ => return None,
     })
 }
